@@ -184,6 +184,12 @@ def bsearch (below : Nat → Bool) : Nat → Nat → Nat → Nat
       if below h then bsearch below fuel (h + 1) j else bsearch below fuel i h
     else i
 
+/-- the comparison function handed to `BinarySearchFunc`: `token.value < target` -/
+def belowAt (o : Ops α) (C : List (Tok α)) (target : α) (h : Nat) : Bool :=
+  match C[h]? with
+  | some t => o.lt t.val target
+  | none => false
+
 /-- cumulative sums, `r *= total`, binary search, NaN guard, final index -/
 def pick (o : Ops α) (r : α) (L : List (Tok α)) : Except Err (Tok α) :=
   let C := cumsum o o.zero L
@@ -191,9 +197,7 @@ def pick (o : Ops α) (r : α) (L : List (Tok α)) : Except Err (Tok α) :=
   | none => .error (.panic "sample:tokens[len-1]")
   | some last =>
     let r' := o.mul r last.val
-    let idx := bsearch (fun h => match C[h]? with
-                                  | some t => o.lt t.val r'
-                                  | none => false) (C.length + 1) 0 C.length
+    let idx := bsearch (belowAt o C r') (C.length + 1) 0 C.length
     if o.isNaN last.val then .error .nanSum
     else match C[idx]? with
       | some t => .ok t
